@@ -6,6 +6,7 @@ package memory
 
 import (
 	"bytes"
+	"context"
 	"crypto/ecdh"
 	"crypto/ed25519"
 	"crypto/elliptic"
@@ -13,6 +14,7 @@ import (
 	"io"
 	"math/big"
 
+	"github.com/tink-crypto/tink-go/v2/aead"
 	aeadsubtle "github.com/tink-crypto/tink-go/v2/aead/subtle"
 	daeadsubtle "github.com/tink-crypto/tink-go/v2/daead/subtle"
 	hybridsubtle "github.com/tink-crypto/tink-go/v2/hybrid/subtle"
@@ -106,6 +108,43 @@ func streamPrim(p *prim, s streamLike) {
 	}
 }
 
+// kek is the caller's key-encryption AEAD of the KMS envelope AEADs. What its Decrypt returns is memory of the
+// caller's object (a remote-KMS client may well cache it): it is a simmem buffer that stays registered, so a write
+// into it by the envelope AEAD shows like a write into any other caller buffer.
+type kek struct {
+	w *world
+	a tink.AEAD
+}
+
+func newKEK(w *world) (*kek, error) {
+	a, err := aeadsubtle.NewAESGCM(w.material("kek", 16))
+	if err != nil {
+		return nil, err
+	}
+	return &kek{w: w, a: a}, nil
+}
+
+func (k *kek) Encrypt(pt, ad []byte) ([]byte, error) { return k.a.Encrypt(pt, ad) }
+
+func (k *kek) Decrypt(ct, ad []byte) ([]byte, error) {
+	pt, err := k.a.Decrypt(ct, ad)
+	if err != nil {
+		return nil, err
+	}
+	b := k.w.in("the caller's key-encryption AEAD", "DEK returned by the caller's key-encryption AEAD", pt, k.w.nextSpare())
+	k.w.r.Probe("kek-returned-buffer")
+	return b.Slice(), nil
+}
+
+type kekCtx struct{ k *kek }
+
+func (c kekCtx) EncryptWithContext(_ context.Context, pt, ad []byte) ([]byte, error) {
+	return c.k.Encrypt(pt, ad)
+}
+func (c kekCtx) DecryptWithContext(_ context.Context, ct, ad []byte) ([]byte, error) {
+	return c.k.Decrypt(ct, ad)
+}
+
 // demHelper is the harness's DEM for the subtle ECIES primitives: AES-128-GCM through the subtle constructor.
 type demHelper struct{}
 
@@ -183,6 +222,27 @@ var subtleCases = []subtleCase{
 			return err
 		}
 		aeadPrim(p, a)
+		return nil
+	}},
+	{op: "aead.NewKMSEnvelopeAEAD2", recv: "aead.(*KMSEnvelopeAEAD)", produce: "Encrypt", accept: "Decrypt", build: func(w *world, b *builder, p *prim) error {
+		k, err := newKEK(w)
+		if err != nil {
+			return err
+		}
+		aeadPrim(p, aead.NewKMSEnvelopeAEAD2(aead.AES128GCMKeyTemplate(), k))
+		return nil
+	}},
+	{op: "aead.NewKMSEnvelopeAEADWithContext", recv: "aead.(*KMSEnvelopeAEADWithContext)", produce: "EncryptWithContext", accept: "DecryptWithContext", build: func(w *world, b *builder, p *prim) error {
+		k, err := newKEK(w)
+		if err != nil {
+			return err
+		}
+		a, err := aead.NewKMSEnvelopeAEADWithContext(aead.AES256GCMKeyTemplate(), kekCtx{k})
+		if err != nil {
+			return err
+		}
+		p.produce = func(msg, aux []byte) ([]byte, error) { return a.EncryptWithContext(context.Background(), msg, aux) }
+		p.decrypt = func(ct, aux []byte) ([]byte, error) { return a.DecryptWithContext(context.Background(), ct, aux) }
 		return nil
 	}},
 	{op: "daead/subtle.NewAESSIV", recv: "daead/subtle.(*AESSIV)", produce: "EncryptDeterministically", accept: "DecryptDeterministically", build: func(w *world, b *builder, p *prim) error {
